@@ -81,6 +81,10 @@ def calldesc(o, call):
     return f'{desc(o)}.{name}({", ".join(f"{k}={v}" for k, v in kw.items())})'
 
 
+def calldesc_text(dsc, call):
+    return f'{dsc}.{call[0]}({call[1]})'
+
+
 def run_call(o, call):
     name, kw = call
     real = {}
@@ -361,6 +365,41 @@ def run(p):
         if call[0] == 'notation':
             continue
         check_step(p, o, call)
+    # 3b. objects are values: ONE object converted several times with different arguments gives, each time, what a fresh
+    #     object gives (check_step compares with the functional API), and results handed out earlier are not changed by
+    #     later conversions of the same or of another object at the same position (kept results are re-read at the end)
+    for _ in range(p.n(400, 15000)):
+        kind = rng.choice(['cart', 'geo', 'tm'])
+        en0, pn0 = rng.choice(['grs80', 'ans']), rng.choice(['utm', 'isg'])
+        o = gen_obj(rng, kind, en0, pn0)
+        before = observed(o)
+        kept = []
+        twins = [o]
+        # a second object at the same position with other heights (same horizontal numbers)
+        try:
+            if kind == 'geo':
+                twins.append(C.CoordGeo(o.lat, o.lon, gen_height(rng), gen_height(rng)))
+            elif kind == 'cart':
+                twins.append(C.CoordCart(o.xaxis, o.yaxis, o.zaxis, gen_height(rng)))
+            else:
+                twins.append(C.CoordTM(o.zone, o.east, o.north, gen_height(rng), gen_height(rng), o.hemi_north, o.projection))
+        except Exception:  # noqa
+            pass
+        for i in range(rng.randrange(2, 6)):
+            t = twins[i % len(twins)]
+            en = rng.choice(['grs80', 'ans'])
+            pn = pn0 if kind == 'tm' else rng.choice(['utm', 'isg'])
+            call, _ = gen_call(rng, kind, en, pn, True)
+            if call[0] == 'notation':
+                continue
+            ok, r = check_step(p, t, call)
+            if ok and r is not None:
+                kept.append((desc(t), call, r, observed(r)))
+        p.case('object_reuse', [desc(o), len(kept)])
+        p.check(observed(o) == before, 'reuse:object-changed-by-its-own-conversions', 'object_reuse', desc(o), observed(o), before)
+        for dsc, call, r, snap in kept:
+            p.check(observed(r) == snap, 'reuse:earlier-result-changed-by-a-later-conversion', 'object_reuse',
+                    [dsc, [call[0], call[1]]], observed(r), snap, calldesc_text(dsc, call))
     # 4. closed chains
     for _ in range(p.n(1500, 60000)):
         en, pn = rng.choice(['grs80', 'ans']), rng.choice(['utm', 'isg'])
